@@ -62,15 +62,16 @@ def P(name, enforce, **kw):
 def all_proofs():
     return [
         P('validate_signed', 'w_validate_signed/validate_signed_contract', canaries=2, functions=['option.h:BoundedOption<signed,min,max>::validate', 'option.h:Option<signed>::validate'],
-          mutants=[('off_by_one_max', r'if \(val > static_cast<long>\(max\)\)', 'if (val > static_cast<long>(max) + 1)', 'postcondition'),
-                   ('min_unchecked', r'if \(val < static_cast<long>\(min\)\)', 'if (false)', 'postcondition')]),
+          mutants=[('off_by_one_max', r'if \(val > static_cast<long>\(m_hi\)\)', 'if (val > static_cast<long>(m_hi) + 1)', 'postcondition'),
+                   ('min_unchecked', r'if \(val < static_cast<long>\(m_lo\)\)', 'if (false)', 'postcondition')]),
         P('validate_unsigned', 'w_validate_unsigned/validate_unsigned_contract', canaries=2, functions=['option.h:BoundedOption<unsigned,min,max>::validate', 'option.h:Option<unsigned>::validate']),
         P('read_number_signed', 'read_number_signed/read_number_signed_contract', canaries=3, functions=['option.cpp:read_number<signed>', 'option.h:validate (inlined)'],
-          mutants=[('assign_before_validate', r'if \(  \*c == 0\n      && out.validate\(val\)\)\n   \{\n      out.m_val = static_cast<T>\(val\);', 'out.m_val = static_cast<T>(val);\n   if (  *c == 0\n      && out.validate(val))\n   {', 'postcondition'),
+          mutants=[('assign_before_validate', r'(   // the number has to fit[^\n]*\n   if \(  \*c == 0\n)', r'   out.m_val = static_cast<signed>(val);\n\1', 'postcondition'),
                    ('validates_before_negation', r'if \(out.validate\(rval\)\)', 'if (out.validate(tval))', 'postcondition'),
-                   ('partial_numeral_accepted', r'if \(  \*c == 0\n      && out.validate', 'if (  out.validate', 'postcondition')]),
+                   ('partial_numeral_accepted', r'if \(  \*c == 0\n      && static_cast', 'if (  static_cast', 'postcondition'),
+                   ('truncation_unchecked', r'      && static_cast<long>\(static_cast<signed>\(val\)\) == val\n', '', 'postcondition')]),
         P('read_number_unsigned', 'read_number_unsigned/read_number_unsigned_contract', canaries=3, functions=['option.cpp:read_number<unsigned>', 'option.h:validate (inlined)'],
-          mutants=[('validates_before_negation', r'if \(out.validate\(rval\)\)', 'if (out.validate(tval))', 'postcondition')]),
+          mutants=[('reference_not_checked', r'      if \(static_cast<long>\(static_cast<unsigned>\(rval\)\) != rval\)\n      \{\n         out.warnUnexpectedValue\(in\);\n         return\(false\);\n      \}\n', '', 'postcondition')]),
         P('bool_read', 'w_bool_read/bool_read_contract', canaries=2, functions=['option.cpp:Option<bool>::read'],
           mutants=[('inversion_lost', r'm_val = \(invert \? !bopt\(\) : bopt\(\)\);', 'm_val = bopt();', 'postcondition')]),
     ]
